@@ -136,9 +136,8 @@ pub fn run(args: &Args) {
     let prop = args.get("prop").unwrap_or("C13").to_string();
     // the worlds are needed by every shard
     let worlds = load_worlds(&read_tlc_lines(args.req("worlds"), "REPLAY"));
-    let (n_all, lines) = read_tlc_lines_sharded(args.req("in"), "REPLAY", shard);
-    if n_all == 0 || worlds.is_empty() {
-        eprintln!("no REPLAY lines / no worlds");
+    if worlds.is_empty() {
+        eprintln!("no worlds");
         std::process::exit(2);
     }
     let mut st = Stats::default();
@@ -151,10 +150,14 @@ pub fn run(args: &Args) {
             }
         }
     }
-    for (i, l) in lines.iter().enumerate() {
+    let mut n_lines = 0usize;
+    // streamed: the thorough tier emits several hundred thousand histories
+    let n_all = stream_tlc_lines_sharded(args.req("in"), "REPLAY", shard, |i, l| {
+        let l = &l;
         if l.get("world").is_some() {
-            continue;
+            return;
         }
+        n_lines += 1;
         st.cases += 1;
         let steps = arr(&l["steps"]);
         let changes = steps.iter().filter(|s| s["obs"]["members"] != l["initial"]["members"]).count();
@@ -175,8 +178,12 @@ pub fn run(args: &Args) {
         if st.samples.is_empty() && changes >= 2 && i % 31 == 7 {
             st.samples.push(l.clone());
         }
+    });
+    if n_all == 0 {
+        eprintln!("no REPLAY lines");
+        std::process::exit(2);
     }
-    finish(st, args.req("out"), args.req("replay-dir"), json!({"lines": lines.len(), "worlds": worlds.len()}));
+    finish(st, args.req("out"), args.req("replay-dir"), json!({"lines": n_lines, "worlds": worlds.len()}));
 }
 
 pub fn replay_one(v: &Value) -> bool {
